@@ -868,7 +868,25 @@ func c3History(t *testing.T, id int, seed uint64, mutOffset int) *c3Hist {
 			validHb(m, w.peers[r.below(len(w.peers))], int64(r.below(50)), false, "valid")
 		case c < 30:
 			m := cur[r.below(len(cur))]
-			validReq(m, "valid")
+			if e%3 != 0 {
+				validReq(m, "valid")
+				break
+			}
+			// a request that was accepted, then what an eavesdropper can make of it: the very same signature under other signed bytes, the
+			// same signature claimed by another address, and the untouched copy once more (re-gossiped: still acceptable)
+			pl := w.reqPayload(0)
+			sg := w.sign(m, cat(c3ReqPrefix, pl))
+			d.opReq(w.addrs[m].Bytes(), pl, sg, "valid")
+			d.opReq(w.addrs[m].Bytes(), w.reqPayload(0), sg, "accepted-signature-on-another-request")
+			d.opReq(w.addrs[m].Bytes(), flipBit(pl, r), sg, "accepted-signature-on-a-changed-request")
+			d.opReq(w.addrs[cur[r.below(len(cur))]].Bytes(), pl, sg, "accepted-signature-under-a-drawn-member-address")
+			d.opReq(w.addrs[m].Bytes(), pl, sg, "valid-copy-again")
+			hp := w.hbPayload(d.V*1000000000, 0)
+			hs := w.sign(m, cat(c3HbPrefix, hp))
+			pr := w.peers[r.below(len(w.peers))]
+			d.opHb(pr, w.addrs[m].Bytes(), hp, hs, false, "valid")
+			d.opHb(pr, w.addrs[m].Bytes(), w.hbPayload((d.V+1)*1000000000, 0), hs, false, "accepted-signature-on-another-heartbeat")
+			d.opReq(w.addrs[m].Bytes(), hp, hs, "accepted-heartbeat-signature-as-request")
 		case c < 55:
 			a, pl, sg, note := w.mutHb(mut%c3NMut, cur, outsiders(), d.V)
 			mut++
